@@ -76,7 +76,7 @@ bool op_spec(const Op& o, Spec& s)
 	s.bounded = (int) o.i[4];
 	s.pristine = o.i.size() > 5 ? (int) o.i[5] : 0;
 	s.p		  = o.d;
-	static const size_t need[] = {2, 2, 1, 3, 4, 6, 5, 6, 1};
+	static const size_t need[] = {2, 2, 1, 3, 4, 6, 5, 6, 0};
 	return s.p.size() >= need[s.kind];
 }
 
@@ -219,11 +219,12 @@ std::vector<double> draw(std::mt19937& G, const Spec& s, Counters* cnt = nullptr
 			int sh = s.family;
 			double a = p[0], b = p[1];
 			uint64_t calls						= 0;
-			std::function<double(double)> pdf = [&, sh, a, b, x0, x1](double x) {
+			double scale						= p.size() > 5 ? p[5] : 1.0;   // the density need not be normalised: any positive scale
+			std::function<double(double)> pdf = [&, sh, a, b, x0, x1, scale](double x) {
 				  calls++;
-				  return shape_pdf(sh, a, b, (x - x0) / (x1 - x0));
+				  return scale * shape_pdf(sh, a, b, (x - x0) / (x1 - x0));
 			};
-			double r = libphysica::Rejection_Sampling(pdf, x0, x1, shape_max(sh, a, b) * p[4], G);
+			double r = libphysica::Rejection_Sampling(pdf, x0, x1, scale * shape_max(sh, a, b) * p[4], G);
 			if(cnt)
 				cnt->rej_iters = calls;
 			return {r};
@@ -443,9 +444,9 @@ struct Exec
 		}
 		if(std::find(kinds_seen.begin(), kinds_seen.end(), s.kind) == kinds_seen.end())
 			kinds_seen.push_back(s.kind);
-		if((s.kind == 2 && s.p[0] > 500) || (s.kind == 8 && *std::max_element(s.p.begin(), s.p.end()) > 500))
+		if((s.kind == 2 && s.p[0] > 500) || (s.kind == 8 && !s.p.empty() && *std::max_element(s.p.begin(), s.p.end()) > 500))
 			ctx.probe(P_POISSON_GT500);
-		if((s.kind == 2 && s.p[0] > 1000) || (s.kind == 8 && *std::max_element(s.p.begin(), s.p.end()) > 1000))
+		if((s.kind == 2 && s.p[0] > 1000) || (s.kind == 8 && !s.p.empty() && *std::max_element(s.p.begin(), s.p.end()) > 1000))
 			ctx.probe(P_POISSON_GT1000);
 		if(s.kind == 6 || s.kind == 7)
 			ctx.probe(P_METRO_GRID);
@@ -453,7 +454,10 @@ struct Exec
 		if(s.kind == 2)
 			pbucket = s.p[0] < 1 ? 0 : s.p[0] < 30 ? 1 : s.p[0] <= 500 ? 2 : s.p[0] <= 1000 ? 3 : 4;
 		else if(s.kind == 4 || s.kind == 5)
-			pbucket = s.p.back() <= 1.0 ? 0 : s.p.back() < 3 ? 1 : s.p.back() < 30 ? 2 : 3;
+		{
+			double factor = s.kind == 4 ? s.p[4] : s.p[6];
+			pbucket		  = factor <= 1.0 ? 0 : factor < 3 ? 1 : factor < 30 ? 2 : 3;
+		}
 		else if(s.kind == 6 || s.kind == 7)
 			pbucket = (s.sample == 0 ? 0 : s.sample < 10 ? 1 : 2) * 2 + (s.bounded ? 1 : 0);
 		ctx.state(((uint32_t) s.kind * 10 + (uint32_t) prev_kind) * 3 * 8 + (fresh_state ? 0u : 1u) * 8 + pbucket);
@@ -917,9 +921,7 @@ struct Gen
 			{
 				int n = (int) r.irange(0, 5);
 				for(int k = 0; k < n; k++)
-					s.p.push_back(r.chance(0.2) ? 600.0 : r.logrange(0.01, 50));
-				if(s.p.empty())
-					s.p.push_back(2.0);
+					s.p.push_back((k > 0 && r.chance(0.2)) ? s.p.back() : r.chance(0.2) ? 600.0 : r.logrange(0.01, 50));	 // repeats allowed; n = 0: empty list
 				break;
 			}
 			case 3:
@@ -929,6 +931,16 @@ struct Gen
 				shape_params(s.family, a, b);
 				if(r.chance(0.3))
 					w = r.logrange(1e3, 1e10);
+				else if(r.chance(0.15))
+				{
+					// a narrow window far from the origin, e.g. [1e9, 1e9+1]: still ~1e7 representable abscissae inside
+					off = r.sign() * r.logrange(1e6, 1e9);
+					w	= std::fabs(off) * r.logrange(1e-9, 1e-7);
+					// give the CDF structure well inside the window (a one-step root finder is exact on straight CDFs)
+					s.family = 1;
+					a		 = r.range(0.2, 0.8);
+					b		 = r.logrange(0.005, 0.05);
+				}
 				s.p = {a, b, off, off + w};
 				break;
 			}
@@ -941,6 +953,8 @@ struct Gen
 				if(!for_law && r.chance(0.02))
 					factor = 60.0;
 				s.p = {a, b, off, off + w, factor};
+				if(r.chance(0.3))
+					s.p.push_back(std::pow(2.0, (double) r.irange(-100, 100)));	  // power of two: the scaled density compares exactly like the unscaled one
 				break;
 			}
 			case 5:
@@ -1131,7 +1145,7 @@ struct Gen
 		if(kind == 1 || kind == 3)
 			n = std::min<size_t>(n, thorough ? 400000 : 100000);
 		if(kind == 4 || kind == 5)
-			n = (size_t) (n / std::max(1.0, s.p.back() / 2));
+			n = (size_t) (n / std::max(1.0, (kind == 4 ? s.p[4] : s.p[6]) / 2));
 		static const std::vector<long long> SEEDS = {0, 1, 5489, 4294967295ll};
 		p.ops.push_back(Op("seed", {r.chance(0.3) ? r.pick(SEEDS) : (long long) (r.next() & 0xffffffffu)}));
 		if(r.chance(0.5))
